@@ -3,6 +3,7 @@ package main
 import (
 	"fmt"
 	"go/token"
+	"go/types"
 	"os"
 	"path/filepath"
 	"sort"
@@ -107,6 +108,84 @@ func helper(s string) {
 func Unreachable() {
 	panic("control: unreachable panic")
 }
+
+// ---- L.index control: three guarded accesses, two planted unguarded ones ----
+
+func idxGood(src []byte) int {
+	n := 0
+	for i := 0; i < len(src); i++ {
+		if i+1 < len(src) && src[i+1] == 'x' {
+			n++
+		}
+		ok := i < len(src)-2 && src[i] == 'a'
+		if ok {
+			n += int(src[i+2])
+		}
+	}
+	return n
+}
+
+func idxBad(src []byte) int {
+	n := 0
+	for i := 0; i < len(src); i++ {
+		if i < len(src) && src[i+1] == 'x' {
+			n++
+		}
+		if src[i] == 'y' || i+2 < len(src) {
+			n += int(src[i+2])
+		}
+	}
+	return n
+}
+
+// ---- N control: a two-slot node type with one optional child ----
+
+type ID uint32
+
+type Node struct {
+	id0 ID
+	lhs *Node
+	rhs *Node
+}
+
+type Stmt Node
+type Expr Node
+
+func (n *Node) AsExpr() *Expr { return (*Expr)(n) }
+func (n *Expr) AsNode() *Node { return (*Node)(n) }
+func (n *Stmt) LHS() *Expr    { return n.lhs.AsExpr() }
+func (n *Stmt) RHS() *Expr    { return n.rhs.AsExpr() }
+func (n *Expr) Op() ID        { return n.id0 }
+
+func NewStmt(lhs *Expr, rhs *Expr) *Stmt { return &Stmt{lhs: lhs.AsNode(), rhs: rhs.AsNode()} }
+func NewExpr(op ID) *Expr                { return &Expr{id0: op} }
+
+func parseStmt(assign bool) *Stmt {
+	lhs := (*Expr)(nil)
+	rhs := NewExpr(1)
+	if assign {
+		lhs = rhs
+		rhs = NewExpr(2)
+	}
+	return NewStmt(lhs, rhs)
+}
+
+func nilGood(s *Stmt) ID {
+	if l := s.LHS(); l != nil {
+		return l.Op()
+	}
+	return s.RHS().Op()
+}
+
+func nilBad(s *Stmt) ID { return s.LHS().Op() }
+
+func nilBadVar(s *Stmt) ID {
+	l := s.LHS()
+	if s.RHS() != nil {
+		return l.Op()
+	}
+	return 0
+}
 `
 
 func c11Control(c *core.Ctx) {
@@ -185,4 +264,64 @@ func c11Control(c *core.Ctx) {
 	wantP := `functions=6 panics=[helper#0 "control: reachable panic"] exits=[]`
 	c.Check(gotP == wantP, "P.control", "wvcontrol", "on the control package the reachability scan reports the reachable panic and not the unreachable one", 2,
 		fmt.Sprintf("got  %s\nwant %s", gotP, wantP))
+
+	// ---- L.index / N controls: the same engines on the planted functions ----
+	cp := gp.Pkg("wvcontrol")
+	var idx []string
+	for _, name := range []string{"idxGood", "idxBad"} {
+		f := gp.FindFunc("wvcontrol", "", name)
+		if f == nil {
+			idx = append(idx, name+"=missing")
+			continue
+		}
+		z, _, ok := c11ZoneRun(f)
+		safe, unsafe, other := 0, 0, 0
+		for _, s := range z.sites {
+			switch s.class {
+			case "safe":
+				safe++
+			case "unsafe":
+				unsafe++
+			default:
+				other++
+			}
+		}
+		idx = append(idx, fmt.Sprintf("%s=%v/%d safe/%d unsafe/%d other", name, ok, safe, unsafe, other))
+	}
+	gotI := strings.Join(idx, " ")
+	wantI := "idxGood=true/3 safe/0 unsafe/0 other idxBad=true/1 safe/2 unsafe/0 other"
+	c.Check(gotI == wantI, "L.index.control", "wvcontrol", "on the control package the zone engine proves the three guarded accesses (offset guard, && operand, boolean local) and reports exactly the two planted ones (guard weaker by one; || does not guard)", 6,
+		fmt.Sprintf("got  %s\nwant %s", gotI, wantI))
+
+	A := newC11Ast(gp, cp, cp)
+	gotN := "model not built"
+	if A != nil {
+		A.fix()
+		names, byName := A.derivedAccessors()
+		derived := map[types.Object]bool{}
+		for _, fn := range byName {
+			derived[fn] = true
+		}
+		parts := []string{fmt.Sprintf("derived=%v", names)}
+		for _, name := range []string{"nilGood", "nilBad", "nilBadVar"} {
+			f := gp.FindFunc("wvcontrol", "", name)
+			if f == nil {
+				parts = append(parts, name+"=missing")
+				continue
+			}
+			for _, u := range A.useUnits(f, derived, map[*types.Func]*types.Func{}) {
+				bad := 0
+				for _, s := range u.sites {
+					if s.bad != "" || s.und != "" {
+						bad++
+					}
+				}
+				parts = append(parts, fmt.Sprintf("%s=%d/%d", name, len(u.sites), bad))
+			}
+		}
+		gotN = strings.Join(parts, " ")
+	}
+	wantN := "derived=[Stmt.LHS] nilGood=1/0 nilBad=1/1 nilBadVar=1/1"
+	c.Check(gotN == wantN, "N.control", "wvcontrol", "on the control package the derivation finds the one optional child (a nil-initialised local passed to the constructor), accepts the dereference under `l != nil` and reports the direct dereference and the one guarded by a test of the other child", 4,
+		fmt.Sprintf("got  %s\nwant %s", gotN, wantN))
 }
